@@ -181,11 +181,18 @@ func checkDry(rt *rapid.T, c *chains.Chain) {
 			fail("no statement was built")
 		}
 		// (a) structure
-		if msg := chains.CheckNumbered(sqlN, len(varsN)); msg != "" {
+		// values bound under a driver-level name (sql.Named) pair with their ":name" placeholder,
+		// all others with the dialect's positional placeholders
+		posN, namesN := chains.Positional(varsN)
+		posQ, namesQ := chains.Positional(varsQ)
+		if msg := chains.CheckNumbered(sqlN, posN); msg != "" {
 			fail("numbered dialect: %s", msg)
 		}
-		if k := chains.CountQ(sqlQ); k != len(varsQ) {
-			fail("positional dialect: %d placeholders for %d bound values", k, len(varsQ))
+		if k := chains.CountQ(sqlQ); k != posQ {
+			fail("positional dialect: %d placeholders for %d positionally bound values", k, posQ)
+		}
+		if !chains.NamedMatch(sqlN, namesN) || !chains.NamedMatch(sqlQ, namesQ) {
+			fail("the values bound under a name %v do not pair with the named placeholders %v of the text", namesQ, chains.ColonNames(sqlQ, true))
 		}
 		if chains.Unnumber(sqlN) != sqlQ {
 			fail("the two dialects disagree beyond placeholder spelling")
@@ -361,15 +368,19 @@ func checkExec(rt *rapid.T, c *chains.Chain) {
 		if ev.Text != cp.sql {
 			fail("the driver received a different text than Statement.SQL: %q", cp.sql)
 		}
-		if n := chains.CountQ(ev.Text); n != len(ev.Args) {
-			fail("statement %d: %d placeholders for %d driver arguments", k+1, n, len(ev.Args))
-		}
 		args := make([]interface{}, len(ev.Args))
 		for i, a := range ev.Args {
-			if a.Ordinal != i+1 || a.Name != "" {
-				fail("statement %d: argument %d has ordinal %d name %q", k+1, i, a.Ordinal, a.Name)
+			if a.Ordinal != i+1 {
+				fail("statement %d: argument %d has ordinal %d", k+1, i, a.Ordinal)
 			}
-			args[i] = chains.Norm(a.Value)
+			args[i] = chains.NormArg(a.Name, a.Value)
+		}
+		pos, names := chains.Positional(args)
+		if n := chains.CountQ(ev.Text); n != pos {
+			fail("statement %d: %d placeholders for %d positional driver arguments", k+1, n, pos)
+		}
+		if !chains.NamedMatch(ev.Text, names) {
+			fail("statement %d: the named driver arguments %v do not pair with the named placeholders %v", k+1, names, chains.ColonNames(ev.Text, true))
 		}
 		if i := chains.SameAll(chains.NormAll(cp.vars), args); i >= 0 {
 			fail("statement %d: driver arguments differ from Statement.Vars at %d: vars %s", k+1, i, chains.Render(chains.NormAll(cp.vars)))
